@@ -76,6 +76,7 @@ type Exec struct {
 	reached  map[string]bool
 	bounds   map[string]int64
 	mapOrder int
+	mapRot   int
 	nextMap  int
 	fileData map[string]fileStub
 	hb       *hbState
